@@ -414,7 +414,9 @@ def _shared_sources(prog: Program):
         for fld, (f, s) in sorted(one_shot.items()):
             adv = []
             for g in sorted(c.methods.values(), key=lambda x: x.qual):
-                if g not in ev:
+                # protocol methods (__iter__, __getitem__, ...) are called by syntax - `for v in d`, `d[k]`, through a local or a
+                # conditional expression - which the call graph cannot always follow: they count as reachable from evaluation
+                if g not in ev and not (g.name.startswith("__") and g.name.endswith("__") and g.name not in ("__init__", "__post_init__")):
                     continue
                 alias = {t.id for x in walk_local(g.node) if isinstance(x, ast.Assign) and any(is_self_attr(y, fld) for y in ast.walk(x.value))
                          and not any(isinstance(y, ast.Call) and call_name(y) in ("list", "tuple", "set", "sorted") for y in ast.walk(x.value))
@@ -701,6 +703,48 @@ def live_iter(prog: Program) -> RuleResult:
     return r
 
 
+def cache_private(prog: Program) -> RuleResult:
+    """What a variable's domain holds is read through the caching iterator only (replay what was pulled, then go on pulling). The cache
+    behind it - `values`, and the source `iterable` - is complete only after some iteration has run to its end: code outside the class that
+    reads it takes a partly filled cache for the whole domain (after an abandoned or suspended iteration every value not pulled yet is
+    missing), and iterating the dict while a live iteration adds to it dies with 'dictionary changed size'."""
+    r = RuleResult("CACHE-PRIVATE", "the cache and the source of a caching iterator are read by its own class only", floor=1)
+    owners = []
+    for c, fld, f0, s0, adv in _shared_sources(prog):
+        caches = set()
+        for g, x in adv:
+            if g.is_generator:
+                caches |= _cache_fields(_cache_stores(CFG(g.node), fld))
+        if caches:
+            owners.append((c, {fld} | caches))
+    if not owners:
+        raise AnalysisError("CACHE-PRIVATE: no caching iterator over a one-shot source found (HashedIterable is the confirmed instance)")
+    for c, private in owners:
+        # fields of the query language that hold such an object
+        holders = set()
+        for k in prog.classes.values():
+            for name, fi in k.attrs.items():
+                if c.name in fi.ann_text:
+                    holders.add(name)
+        bad = None
+        n = 0
+        for g in sorted(prog.functions.values(), key=lambda x: x.qual):
+            if ".entity_query_language." not in g.qual or (g.cls is not None and prog.is_subclass(g.cls.qual, c.qual)):
+                continue
+            for x in walk_local(g.node):
+                if isinstance(x, ast.Attribute) and x.attr in private and isinstance(x.value, ast.Attribute) and x.value.attr in holders:
+                    n += 1
+                    par_call = False
+                    # `<holder>.values()` would be a method call on the holder, not a read of the field: HashedIterable has no such method
+                    bad = bad or (g, x)
+        r.check(bad is None, f"{c.name}#{'+'.join(sorted(private))}-read-by-the-class-only", site(bad[0], bad[1]) if bad else c.loc, src(bad[1])[:60] if bad else f"held by fields {sorted(holders)}",
+                f"no function outside {c.name} reads its cache or its source",
+                f"{bad[0].short if bad else ''} reads {src(bad[1])[:50] if bad else ''} directly: a cache that an abandoned or suspended iteration filled only partly is taken for the whole "
+                "domain (a join evaluated again after its iterator was dropped loses every inner value that was not pulled yet), and a live iteration that adds to it "
+                "breaks the reader with 'dictionary changed size during iteration'")
+    return r
+
+
 def domain_cache(prog: Program) -> RuleResult:
     """A caching iterator over a one-shot source (the variable-domain cache): every element is recorded *before* it is
     handed out - otherwise an iteration that is abandoned right after a value's first delivery (break, early return,
@@ -818,4 +862,4 @@ def _shared_default(prog):
 
 def run(prog: Program, tier: str) -> List[RuleResult]:
     c1 = carry1(prog)
-    return [c1, carry2(prog), ep_handshake(prog), domain_cache(prog), reset_with_evaluation(prog), carry_shared(prog, c1), carry_abandon(prog), carry_memo_up(prog), shared_tree(prog), carry_reset_reach(prog), carry_eval_parent(prog), _shared_default(prog), live_iter(prog)]
+    return [c1, carry2(prog), ep_handshake(prog), domain_cache(prog), reset_with_evaluation(prog), carry_shared(prog, c1), carry_abandon(prog), carry_memo_up(prog), shared_tree(prog), carry_reset_reach(prog), carry_eval_parent(prog), _shared_default(prog), live_iter(prog), cache_private(prog)]
